@@ -3,12 +3,16 @@
 // Pure law, no model: for every input record and every verb chain / DSL
 // program that reads but does not assign a field, the output text of that
 // field equals its input text and its position among the surviving original
-// fields is unchanged. Two exhaustive grids on the real pipeline (in-process
+// fields is unchanged. Three exhaustive grids on the real pipeline (in-process
 // mlr invocations, many spellings per invocation):
 //
 //	readers: EVERY reader template (walked from the verb lookup table and the
-//	         builtin-function table, plus hand-written DSL forms and chains)
-//	         x inference flag x format pair x position of x x a spelling set
+//	         builtin-function table, plus hand-written DSL forms, chains and the
+//	         name re-use family S x U) x inference flag x format pair (text
+//	         formats and JSON-in) x position of x x a spelling set
+//	shapes:  EVERY reader template x EVERY member of three families of
+//	         collection-valued x (arrays, maps, nested; shapes.go) read from
+//	         JSON and written key-spread to a non-JSON format
 //	spell:   EVERY string over the numeric alphabet up to a length bound
 //	         x the core readers x inference flag
 package c03
@@ -31,7 +35,7 @@ import (
 
 func init() {
 	vf.Register(&vf.CheckDef{ID: "C03", Level: "model_checking", Run: run,
-		Workers: map[string]vf.WorkerFunc{"readers": readersWorker, "spell": spellWorker}})
+		Workers: map[string]vf.WorkerFunc{"readers": readersWorker, "spell": spellWorker, "shapes": shapesWorker}})
 }
 
 var inferFlags = []string{"", "-S", "-A", "-O"}
@@ -76,8 +80,9 @@ type inst struct {
 	outName  map[string]string // actual input name -> output name
 	argv     []string          // without output-format flags
 	tmpPref  string
-	probed   bool // the command was tried on the plainest record after its first failure
-	dead     bool // ... and failed there too: it rejects every input
+	probe    string // shape grid: the plainest value of the family
+	probed   bool   // the command was tried on the plainest record after its first failure
+	dead     bool   // ... and failed there too: it rejects every input
 }
 
 var dslFieldRe = regexp.MustCompile(`\$(id|x|y|w|z)\b`)
@@ -226,7 +231,60 @@ func (in *inst) files(batch []string) vf.VFS {
 			}
 		}
 	}
-	return vf.VFS{"LEFT": encode(in.f.in, recs)}
+	return vf.VFS{"LEFT": in.encodeRecs(recs)}
+}
+
+// encodeRecs writes records in the instance's input format; in the shape grid the values of x and w are raw JSON.
+func (in *inst) encodeRecs(recs [][]kv) string {
+	if in.f.in == "jsonraw" {
+		f := "json"
+		if in.f.inFlags[0] == "--ijsonl" {
+			f = "jsonl"
+		}
+		return encodeJSON(f, recs, map[string]bool{in.actual["x"]: true, in.actual["w"]: true})
+	}
+	return encode(in.f.in, recs)
+}
+
+// expected: the input records as the oracle sees them: in the shape grid the collection-valued fields are
+// key-spread (flatten-unflatten.md) with the template's flatten separator.
+func (in *inst) expected(recs [][]kv) [][]kv {
+	if in.f.in != "jsonraw" {
+		return recs
+	}
+	sep := "."
+	if in.t.flatsep != "" {
+		sep = in.t.flatsep
+	}
+	out := make([][]kv, len(recs))
+	xn, wn := in.actual["x"], in.actual["w"]
+	for i, r := range recs {
+		var e []kv
+		for _, p := range r {
+			if p.k == xn || p.k == wn {
+				flattenRef(p.k, parseRaw(p.v), sep, &e)
+			} else {
+				e = append(e, p)
+			}
+		}
+		out[i] = e
+	}
+	return out
+}
+
+// baseName splits a (possibly key-spread) field name into the record-level name and the spread suffix.
+func (in *inst) baseName(n string) (string, string) {
+	if in.f.in != "jsonraw" {
+		return n, ""
+	}
+	sep := "."
+	if in.t.flatsep != "" {
+		sep = in.t.flatsep
+	}
+	if i := strings.Index(n, sep); i >= 0 {
+		return n[:i], n[i:]
+	}
+	return n, ""
 }
 
 // ---------------------------------------------------------------- running and judging
@@ -270,7 +328,7 @@ func (r *runner) runBatch(in *inst, batch []string, tl *tally, failBudget *int) 
 		return
 	}
 	recs := in.records(batch)
-	input := encode(in.f.in, recs)
+	input := in.encodeRecs(recs)
 	files := in.files(batch)
 	cmd := in.command(in.f.ouFlags)
 	res := vf.RunMlr(cmd, vf.MlrOpts{Stdin: &input, Files: files})
@@ -305,8 +363,11 @@ func (r *runner) runBatch(in *inst, batch []string, tl *tally, failBudget *int) 
 			// parse, or a function that aborts on every call, emits nothing for any input: nothing to assert.
 			in.probed = true
 			probe := "1"
+			if in.f.in == "jsonraw" {
+				probe = in.probe
+			}
 			if len(batch) > 1 || batch[0] != probe {
-				pin := encode(in.f.in, in.records([]string{probe}))
+				pin := in.encodeRecs(in.records([]string{probe}))
 				pres := vf.RunMlr(cmd, vf.MlrOpts{Stdin: &pin, Files: in.files([]string{probe})})
 				tl.runs++
 				if !pres.OK() {
@@ -344,7 +405,7 @@ func (r *runner) runBatch(in *inst, batch []string, tl *tally, failBudget *int) 
 			}
 		}
 	}
-	r.judge(in, batch, recs, out, cmd, input, tl)
+	r.judge(in, batch, in.expected(recs), out, cmd, input, tl)
 }
 
 func firstLine(s string) string {
@@ -389,12 +450,12 @@ func (r *runner) judge(in *inst, batch []string, recs [][]kv, out [][]kv, cmd []
 		lastPos := -1
 		orderBroken := ""
 		for _, ip := range irec {
-			name := ip.k
+			name, suf := in.baseName(ip.k)
 			if in.assigned[name] || ((in.allEmpty || in.assEmpty[name]) && ip.v == "") {
 				tl.assignedSkipped++
 				continue
 			}
-			on := in.outName[name]
+			on := in.outName[name] + suf
 			pos := -1
 			for j, op := range orec {
 				if op.k == on {
@@ -414,7 +475,11 @@ func (r *runner) judge(in *inst, batch []string, recs [][]kv, out [][]kv, cmd []
 				if name != xName {
 					what = in.logical[name]
 				}
-				r.viol(in, "text", ip.v, cmd, input, fmt.Sprintf("field %s (%s) of record id r%d: input text %q, output text %q", on, what, idx, ip.v, got))
+				sp := ip.v
+				if in.f.in == "jsonraw" {
+					sp = batch[idx] // the whole collection value of x
+				}
+				r.viol(in, "text", sp, cmd, input, fmt.Sprintf("field %s (%s) of record id r%d: input text %q, output text %q", on, what, idx, ip.v, got))
 			} else if name == xName {
 				tl.xCompared++
 				symCounts(ip.v, &tl.sym)
@@ -572,6 +637,15 @@ type rcase struct {
 var extraMainOpts = [][]string{{"--records-per-batch", "1"}, {"--no-hash-records"}, {"--hash-records"}, {"--nr-progress-mod", "1000000"}, {"--no-auto-flatten"}, {"--no-auto-unflatten"},
 	{"--infer-none"}, {"--infer-int-as-float"}, {"--infer-octal"}, {"--no-dedupe-field-names"}, {"--records-per-batch", "7"}, {"--ofs", ","}}
 
+func fmtIdx(name string) int {
+	for i := range formats {
+		if formats[i].name == name {
+			return i
+		}
+	}
+	panic("c03: no format " + name)
+}
+
 func skipFormat(t *tmpl, f *format) bool {
 	return t.hetero && (f.out == "csv" || f.out == "tsv" || f.out == "nidx")
 }
@@ -589,17 +663,46 @@ func readerCases(cat *catalogue, quick bool) []rcase {
 	}
 	// pass 1: the covering selection for every template (thorough: on the large spelling set) and the extra main options
 	for _, t := range cat.templates {
-		isFn := strings.HasPrefix(t.group, "dslfn:")
+		isFn := strings.HasPrefix(t.group, "dslfn:") || t.group == "dsl-coll"
 		isPair := t.group == "chain" && t.light
 		wide := !quick
+		if t.wfill {
+			// generated function form with $w as the other argument: one scalar case; its weight is in the shape grid
+			add(t, 0, 0, "", nil, wide)
+			continue
+		}
+		if t.group == "reuse" {
+			// name re-use after a structural edit: what matters is whether the record carries a key index: wide (13th: 14
+			// fields) and narrow layouts, JSON-read records, and the explicit hashing switches
+			// (small spelling set: the boundary list; the spelling dimension of these chains is covered by their stages)
+			add(t, 0, 0, "", nil, false)
+			add(t, 0, 1, "", nil, false)
+			add(t, 0, 0, "", []string{"--hash-records"}, false)
+			add(t, 0, 1, "", []string{"--no-hash-records"}, false)
+			add(t, fmtIdx("json-num"), 0, "-O", nil, false)
+			add(t, fmtIdx("json-str"), 3, "-S", nil, false)
+			continue
+		}
+		if t.group == "dsl-coll" {
+			add(t, 0, 0, "", nil, wide)
+			// readers of collections: on scalars most evaluate to an error value; their weight is in the shape grid
+			add(t, fmtIdx("json-num"), 0, "", nil, wide)
+			continue
+		}
 		for _, flag := range inferFlags {
 			add(t, 0, 0, flag, nil, wide)
 		}
 		if !isPair && isFn {
 			add(t, 1, 1, "", nil, wide)
+			add(t, fmtIdx("json-num"), 0, "", nil, wide)
 		}
 		if !isPair && !isFn {
 			for fi := 1; fi < len(formats); fi++ {
+				if quick && (formats[fi].name == "jsonl" || formats[fi].name == "json-str") && !t.core {
+					// quick tier, core readers only: the JSON Lines flag selects the same reader as --ijson, and a JSON string
+					// value is never type-inferred; json-num (values typed by the JSON decoder) runs with every template
+					continue
+				}
 				add(t, fi, fi%len(layouts), inferFlags[fi%len(inferFlags)], nil, wide)
 			}
 			for li := 1; li < len(layouts); li++ {
@@ -626,14 +729,23 @@ func readerCases(cat *catalogue, quick bool) []rcase {
 	}
 	// pass 2 (thorough): the full product format x layout x flag on the small spelling set
 	for _, t := range cat.templates {
-		isFn := strings.HasPrefix(t.group, "dslfn:")
+		isFn := strings.HasPrefix(t.group, "dslfn:") || t.group == "dsl-coll"
 		if t.group == "chain" && t.light {
 			continue
 		}
 		for fi := range formats {
 			for li := range layouts {
-				if isFn && (li > 1 || fi == 2 || fi > 3) {
-					continue // generated function forms: dkvp, csv, xtab x (mid, 13th)
+				if isFn && (li > 1 || fi == 2 || (fi > 3 && formats[fi].name != "json-num")) {
+					continue // generated function forms: dkvp, csv, xtab, json-num x (mid, 13th)
+				}
+				if t.wfill && (fi > 0 || li > 0) {
+					continue
+				}
+				if t.group == "reuse" && (li > 1 || fi == 2 || fi == 3 || (fi > 4 && fi < 8) || formats[fi].name == "jsonl") {
+					continue // narrow (mid) and wide (13th) records; dkvp, csv, nidx-in, json-num, json-str
+				}
+				if fi >= 8 && li > 1 {
+					continue // JSON-in formats: mid and 13th
 				}
 				for _, flag := range inferFlags {
 					add(t, fi, li, flag, nil, false)
@@ -649,6 +761,21 @@ func readersWorker(w *vf.Worker) {
 	json.Unmarshal(w.Args, &a)
 	cat := buildCatalogue()
 	narrow := s2(2)
+	boundary := boundaryList()
+	// JSON-in formats, small set: what distinguishes them from the text readers is the values the JSON decoder types
+	// itself: every legal JSON number of the small set, plus the boundary list (numbers and strings)
+	var jsonSet []string
+	{
+		inB := map[string]bool{}
+		for _, b := range boundary {
+			inB[b] = true
+		}
+		for _, v := range narrow {
+			if isJSONNumber(v) || inB[v] {
+				jsonSet = append(jsonSet, v)
+			}
+		}
+	}
 	var wideSet []string
 	r := &runner{w: w, deadline: a.Deadline}
 	only := os.Getenv("VERIF_C03_ONLY") // debugging: substring of the template name
@@ -671,6 +798,11 @@ func readersWorker(w *vf.Worker) {
 			return fmt.Sprintf("%s | %s | %s | %s | %v", t.name, cs.flag, cs.f.name, cs.l.name, cs.opt)
 		})
 		S := narrow
+		if t.group == "reuse" && !cs.wide {
+			S = boundary
+		} else if !cs.wide && (cs.f.in == "json" || cs.f.in == "jsonstr" || cs.f.in == "jsonl") {
+			S = jsonSet
+		}
 		if cs.wide {
 			if wideSet == nil {
 				wideSet = s2(a.S2Len)
@@ -792,7 +924,7 @@ func spellWorker(w *vf.Worker) {
 // ---------------------------------------------------------------- orchestrator
 
 func run(c *vf.Ctx) {
-	c.Rule = "case = (reader template, inference flag, format pair, position of x, spelling): the spelling is the text of field x of one input record of an in-process mlr invocation (256 or 1000 records per invocation); oracle: every original field the template does not assign has byte-identical text in every output record carrying that record's id, and unassigned, unmoved original fields keep their relative order. A case is non-trivial when the x cell was found in the output and compared; all non-trivial cases are distinct by construction (distinct_nontrivial = compared x cells)"
+	c.Rule = "case = (reader template, inference flag, format pair, position of x, spelling): the spelling is the text of field x of one input record of an in-process mlr invocation (256 or 1000 records per invocation); oracle: every original field the template does not assign has byte-identical text in every output record carrying that record's id, and unassigned, unmoved original fields keep their relative order. A case is non-trivial when the x cell was found in the output and compared; all non-trivial cases are distinct by construction (distinct_nontrivial = compared x cells). Shape grid: case = (reader template, collection value of x, format pair, inference flag, position): x (and its neighbour w) is a JSON array / map / nested collection held by the record, every member of three families enumerated; same oracle on the documented key-spread form (x.1, x.b.2, ...): every leaf of a collection nobody assigns keeps its input text, its path and its order (one compared leaf of x = one non-trivial case)"
 	c.Assume("JSON/YAML output and --ofmt are outside the property (documented re-renderings) and are not generated")
 	c.Assume("per-format domain predicates (codec.go:inDomainOne): dkvp no ','; tsv no TAB/backslash (TSV escapes); xtab no leading/trailing space (alignment padding); nidx non-empty and no space; no CR/LF in any format (line-ending normalisation is documented); csv cells starting with a BOM excluded. Excluded cells are counted")
 	c.Assume("a template that assigns a field (sec2gmt y, nest -f z, $y = ...) is checked on every OTHER field; fields a verb is documented to fill only when empty (fill-down, fill-empty, sparsify) are checked when non-empty; verbs documented to move fields (reorder, sort -b, cut -o, template, sort-within-records, uniq -g, count-distinct, join field) are exempt from the order clause for those fields only")
@@ -802,23 +934,37 @@ func run(c *vf.Ctx) {
 	c.Assume("nidx output has no keys: the key list of each output record is taken from a second run of the same command with --odkvp (keys only, never values); records whose cell count differs are skipped and counted")
 	c.Assume("numeric-only readers (fraction, stats2) get only spellings accepted by the check's own loose number grammar (spell.go:looksNumeric); identity-on-domain verbs (utf8-to-latin1, latin1-to-utf8: ASCII; unspace: no spaces) only values inside the documented identity domain")
 
+	c.Assume("JSON INPUT is inside the quantifier (only JSON/YAML OUTPUT is excluded): formats json-num (legal RFC-8259 numbers as bare number tokens, everything else as a JSON string), json-str (every value a JSON string) and jsonl feed the same templates; domain: valid UTF-8 text (JSON text is Unicode); YAML input is not generated (its reader carries numbers by value and sorts keys: property C01's known findings)")
+	c.Assume("shape grid: the expected output names are the documented key-spreading of flatten-unflatten.md (map keys and 1-up array indices joined with '.', or the template's own separator for flatten -s); empty collections and JSON null are not generated (the shipped docs do not say how they are spelled on non-JSON output); leaves are chosen inside the domain of both writers used (dkvp, xtab); numeric-only readers (fraction, stats2) are not run on collections; --no-auto-flatten (documented to JSON-stringify collections) is not combined with collection-valued fields")
+	c.Assume("shape grid, assignments to OTHER variables: `$o = $x; $o[1] = ...`, `var a = $x; a[1] = ...`, `@a = $x; ...`, a function parameter or a loop variable bound to $x and then modified are not assignments to x (property text; reference-dsl-variables.md: arguments are passed by value; reference-dsl-control-structures.md: loop variables are bound to a copy; sort is documented to return a sorted copy)")
+	c.Assume("name re-use family: after `rename x,xx` (or cut -x / unset / positional rename / reorder) an operation addressed to the retired name is not an assignment to the renamed field: xx keeps the text of x and its position; run on narrow and wide (14 fields >= the 12-field hashing threshold) text records, with --hash-records / --no-hash-records, and on JSON-read records (always indexed)")
+
 	cat := buildCatalogue()
 	quick := c.Quick()
 	start := time.Now()
-	var bud1, bud2 time.Duration
+	var bud1, bud2, bud3 time.Duration
 	a := poolArgs{}
 	if quick {
 		a.MaxLen, a.S2Len = 4, 2
-		bud1, bud2 = 55*time.Second, 85*time.Second
+		bud1, bud3, bud2 = 45*time.Second, 65*time.Second, 85*time.Second
 	} else {
 		a.MaxLen, a.S2Len = 5, 3
-		bud1, bud2 = 7*time.Minute, 13*time.Minute
+		bud1, bud3, bud2 = 7*time.Minute, 10*time.Minute, 13*time.Minute+30*time.Second
+	}
+	if s := os.Getenv("VERIF_C03_BUDGET_X"); s != "" { // debugging on a loaded machine: stretch the time budgets
+		if k, err := strconv.Atoi(s); err == nil && k > 0 {
+			bud1, bud2, bud3 = bud1*time.Duration(k), bud2*time.Duration(k), bud3*time.Duration(k)
+		}
 	}
 	if s := os.Getenv("VERIF_C03_MAXLEN"); s != "" {
 		a.MaxLen, _ = strconv.Atoi(s)
 	}
 	a.Deadline = start.Add(bud1).Unix()
 	res1 := c.RunPool(vf.PoolSpec{Worker: "readers", Shards: 192, Args: a, StallSecs: 120})
+	c.Extra["wall_readers_grid_s"] = int(time.Since(start).Seconds())
+	a.Deadline = start.Add(bud3).Unix()
+	res3 := c.RunPool(vf.PoolSpec{Worker: "shapes", Shards: 192, Args: a, StallSecs: 120})
+	c.Extra["wall_readers+shape_grids_s"] = int(time.Since(start).Seconds())
 	a.Deadline = start.Add(bud2).Unix()
 	res2 := c.RunPool(vf.PoolSpec{Worker: "spell", Shards: 128, Args: a, StallSecs: 120})
 
@@ -842,6 +988,21 @@ func run(c *vf.Ctx) {
 	c.Extra["x_cells_compared_per_extra_main_option"] = byPrefix("mainopt:")
 	syms := byPrefix("sym:")
 	c.Extra["alphabet_symbol_hits_in_compared_x"] = syms
+	shapeHits := byPrefix("shape:")
+	c.Extra["shape_grid_x_leaves_compared_per_family"] = shapeHits
+	shapeFn := byPrefix("shapefn:")
+	c.Extra["builtin_functions_applied_to_collection_valued_x"] = len(shapeFn)
+	fams := shapeFamilies(quick)
+	famSizes := map[string]int{}
+	for i := range fams {
+		famSizes[fams[i].name] = len(fams[i].values)
+		c.Extra["shape_grid_templates_effective:"+fams[i].name] = len(res3.Sets["shape-templates-effective:"+fams[i].name])
+		if shapeHits[fams[i].name] == 0 {
+			c.Broken("shape family %q never had a leaf of x compared", fams[i].name)
+		}
+	}
+	c.Extra["shape_grid_family_sizes"] = famSizes
+	c.Extra["shape_grid_cases"] = len(shapeCases(cat, quick, len(fams)))
 	fnHits := byPrefix("fn:")
 	c.Extra["builtin_functions_applied_to_x"] = len(fnHits)
 	var fnSilent []string
@@ -867,6 +1028,9 @@ func run(c *vf.Ctx) {
 	for k := range res2.Sets["templates-effective"] {
 		eff[k] = true
 	}
+	for k := range res3.Sets["templates-effective"] {
+		eff[k] = true
+	}
 	var silent []string
 	nT := map[string]int{}
 	for _, t := range cat.templates {
@@ -884,7 +1048,7 @@ func run(c *vf.Ctx) {
 	c.Extra["templates_effective(x compared at least once)"] = len(eff)
 	c.Extra["templates_never_comparing_x(vacuous)"] = append([]string{}, silent...)
 	c.Extra["templates_with_unidentified_output_not_declared"] = vf.SortedSet(res1, "templates-with-unidentified-output")
-	c.Extra["slow_cases(>3s wall, informational)"] = vf.SortedSet(res1, "slow-cases")
+	c.Extra["slow_cases(>3s wall, informational)"] = append(vf.SortedSet(res1, "slow-cases"), vf.SortedSet(res3, "slow-cases")...)
 	c.Extra["templates_rejecting_most_input"] = vf.SortedSet(res1, "templates-rejecting-most-input")
 	rr := vf.SortedSet(res1, "reject-reasons")
 	if len(rr) > 60 {
